@@ -50,7 +50,7 @@ EOLS = ["\n", "\r\n", "\n\n", " // ö😀\n", "\r"]
 def workspaces(ck):
     rng = ck.rng
     out = []
-    for _ in range(40 if ck.tier == "quick" else 600):
+    for _ in range(40 if ck.tier == "quick" else 3000):
         e1, e2, e3 = rng.choice(EOLS), rng.choice(EOLS), rng.choice(EOLS)
         inc = (rng.choice(PREFIXES) + "class Base<int w, string s = \"é\"> {%s  int f = w;%s}%s" % (e2, e2, e2)
                + rng.choice(PREFIXES) + "class Mid : Base<1> {%s  let f = 2;%s}%s" % (e2, e2, e2) + "def shared : Mid;%s" % e2)
